@@ -572,11 +572,11 @@ def r13_5(run, cx):
 
 def run(run, model):
     cx = Ctx(run, model)
-    r13_1(run, cx)
-    r13_5(run, cx)
-    r13_2(run, cx)
-    r13_3(run, cx)
-    r13_4(run, cx)
+    run.try_rule(r13_1, cx)
+    run.try_rule(r13_5, cx)
+    run.try_rule(r13_2, cx)
+    run.try_rule(r13_3, cx)
+    run.try_rule(r13_4, cx)
     run.assume("E1 resolves callees with Instance::try_resolve under TypingEnv::post_analysis on the real cargo build "
                "(dev profile, default features, lib+bin targets of all 8 workspace crates); iteration hidden behind a "
                "dyn Iterator or inside non-workspace generic code receiving a hash container by value is only seen for the "
